@@ -91,6 +91,7 @@ class C09(Check):
         "every session (including the default session) accepts DiagnosticSessionControl(defaultSession) - the scanner's stack recovery presupposes it (ISO 14229-1)",
         "no message loss; latency well below the request timeout",
         "thorough mode is run on graphs of at most 5 sessions and depth <= 3 (its stack count is exponential by design)",
+        "a skipped default session is never probed as a target but may still be requested by the stack recovery (the scanner's reset mechanism)",
     ]
     components = {
         "SessionsScanner command (entry_point, UDSScanner setup/teardown, tester-present worker), ECU client, tcp-lines transport": "real",
@@ -98,7 +99,7 @@ class C09(Check):
         "database": "real DBHandler on SimSqlite (when enabled)",
     }
     shrink_lists: list[str] = []
-    quick_runs = 480
+    quick_runs = 400
     thorough_runs = 40000
     chunk = 2
     smoke_runs = 3
@@ -120,9 +121,13 @@ class C09(Check):
         plan["skip"] = sorted(rng.sample(ids[1:], rng.choice([0, 0, 1, 2]) if len(ids) > 2 else 0)) if len(ids) > 1 else []
         if rng.random() < 0.15:
             plan["skip"] = sorted(set(plan["skip"]) | {rng.randrange(2, 0x7F)})
+        if rng.random() < 0.12:
+            plan["skip"] = sorted(set(plan["skip"]) | {1})
         plan["reset"] = rng.random() < 0.2
         plan["offer_reset"] = rng.random() < 0.8
         plan["db"] = rng.random() < 0.4
+        # an earlier, finished scan of the same target in the same database (its session_transition rows must not influence this scan)
+        plan["prior_depth"] = rng.choice([None, None, 2, 3, 4]) if plan["db"] and len(g) <= 6 else None
         plan["tp"] = rng.choice([None, 0.05, 0.5, 2.0])
         plan["sleep"] = rng.choice([0, 0, 1])
         plan["lat"] = rng.choice([[0.0001, 0.0005], [0.001, 0.004], [0.005, 0.02]])
@@ -179,6 +184,11 @@ class C09(Check):
 
         async def main() -> int:
             await world.start_vecu(ecu, "tcp://ecu:1")
+            if plan.get("prior_depth"):
+                prior = SessionsScanner(SessionsScannerConfig(target="tcp-lines://ecu:1", dumpcap=False, depth=plan["prior_depth"], tester_present=False, timeout=2.0, **kw))
+                await prior.entry_point()
+                ecu.state.reset()
+                ecu.monitor.requests.clear()
             cmd = SessionsScanner(cfg)
             holder["cmd"] = cmd
             return await cmd.entry_point()
@@ -186,7 +196,7 @@ class C09(Check):
         # cap: every probe is one exchange; generous factor on the number of probes
         n = len(graph)
         stacks = (n ** plan["depth"]) if plan["thorough"] else n
-        vcap = 60.0 + stacks * 130 * (plan["depth"] + 2) * (plan["lat"][1] * 4 + 0.01) * 20 + stacks * plan["depth"] * (plan["sleep"] + 3.0) * 130 * (1 if plan["reset"] else 0.02)
+        vcap = (400.0 if plan.get("prior_depth") else 0.0) + 60.0 + stacks * 130 * (plan["depth"] + 2) * (plan["lat"][1] * 4 + 0.01) * 20 + stacks * plan["depth"] * (plan["sleep"] + 3.0) * 130 * (1 if plan["reset"] else 0.02)
         out = world.run_cli(main, vcap=vcap, stepcap=30_000_000)
         world.sql.close_all()
         res["vtime"] = out["vtime"]
@@ -214,13 +224,13 @@ class C09(Check):
                       f"scan reported {got}, reachable within depth {plan['depth']} are {sorted(want)} (extra {extra}, missing {missing}) {why}; graph {graph} skip {sorted(skip)}")
         # skipped sessions never requested
         for sess, pdu in ecu.monitor.requests:
-            if len(pdu) >= 2 and pdu[0] == 0x10 and (pdu[1] & 0x7F) in skip:
+            if len(pdu) >= 2 and pdu[0] == 0x10 and (pdu[1] & 0x7F) in skip and (pdu[1] & 0x7F) != 1:
                 violation(res, "C09/skip", "C09/skip:skipped-session-requested", f"session {pdu[1] & 0x7F:#x} is on the skip list but was requested")
                 break
         # database: transitions carry the reported sessions with a path that really leads there
         if plan["db"]:
             con = sqlite3.connect(tmp / "db.sqlite")
-            rows = con.execute("SELECT destination, steps FROM session_transition ORDER BY destination").fetchall()
+            rows = con.execute("SELECT destination, steps FROM session_transition WHERE run = (SELECT max(id) FROM scan_run) ORDER BY destination").fetchall()
             con.close()
             dests = [r[0] for r in rows]
             if dests != got:
@@ -244,6 +254,10 @@ class C09(Check):
             bump(res["faults"], "thorough")
         if plan["reset"]:
             bump(res["faults"], "reset_between_probes")
+        if plan.get("prior_depth"):
+            bump(res["faults"], "earlier_scan_in_same_database")
+        if 1 in skip:
+            bump(res["faults"], "default_session_skipped")
         if plan["tp"] is not None:
             bump(res["faults"], "tester_present_worker")
         beyond = [s for s in graph if s not in want and s not in skip]
